@@ -31,6 +31,8 @@ def model_trace(ls, u, m):
         st['spawn'] = any(ev(g) for key, (g, f) in u.obs[k + 1].ev.get('spawn', {}).items())
         steps.append(st)
     deps = [j for j in range(me) if ev(ls.dep[me][j])]
+    if getattr(ls, 'dup', None) is not None and deps and deps[0] == 0 and ev(ls.dup):
+        deps.append(0)      # the first dependency is listed twice
     return {'kind': ls.kind, 'watch': ls.watch, 'me': me, 'n': ls.n, 'deps': deps, 'steps': steps}
 
 
@@ -77,6 +79,10 @@ def run_trace(trace, repo='/repo'):
                 attempts += 1
             events.append('nop')
             sched.append('poll 0 *')
+        if not trace['watch']:
+            # one more poll of the actor without delivering anything: a build it has decided on gets its first poll (spawn)
+            events += ['nop', 'nop']
+            sched += ['poll 1 -', 'poll 0 *']
         evf = os.path.join(d, 'events.txt')
         open(evf, 'w').write('\n'.join(events) + '\n')
         res = run_native(binpath, d, [], header + sched, timeout=60, extra_env={'ZX_LOCAL': evf, 'ZX_LOCAL_DIR': d})
@@ -152,6 +158,9 @@ def concrete_monitor(trace, native):
     proc = False
     nspawn = 0
     viol = set()
+    reqsent = {(d, k): False for d in deps for k in ('Build', 'Service')}
+    wanted = {'Build': False, 'Service': False}
+    terminated_ = False
     msteps = [s for s in trace['steps'] if s['alt'][0] != 'stutter']
     for st, nat in zip(msteps, native['steps']):
         a = st['alt'][0]
@@ -233,12 +242,35 @@ def concrete_monitor(trace, native):
         if nat['errs'] and any(o[1] == 'Ok' and o[3] == me and o[4] for o in outs):
             viol.add('ok_on_fail')
         for o in outs:
+            if o[1] in ('Requested', 'Unrequested') and (o[0], o[2]) in reqsent:
+                reqsent[(o[0], o[2])] = (o[1] == 'Requested')
+        if msg and msg[0] == 'Requested':
+            wanted[msg[1]] = True
+        terminated_ = terminated_ or a == 'term'
+        returned = terminated_ or bool(nat.get('dropped_running'))
+        for k in {'build': ('Build',), 'service': ('Service',), 'aggregate': ('Build', 'Service')}[kindme]:
+            if wanted[k] and not returned:
+                for d in deps:
+                    asked = reqsent[(d, k)] if kindme == 'aggregate' else (reqsent[(d, 'Build')] or reqsent[(d, 'Service')])
+                    if not asked:
+                        viol.add('withheld_request')
+        for o in outs:
             if o[1] == 'Requested' and o[0] not in deps:
                 viol.add('requested_non_dependency')
             if o[1] in ('Ok', 'Invalidated') and o[3] is not None and o[3] != me:
                 viol.add('reports_on_another_target')
     if not trace['watch'] and nspawn > 1:
         viol.add('twice')
+    # C04: at the end of a one-shot trace the target is wanted, every dependency's last word is Ok, and nothing was started / acknowledged
+    if not trace['watch'] and not terminated_ and not any(n.get('dropped_running') for n in native['steps']):
+        for k in {'build': ('Build',), 'service': ('Service',), 'aggregate': ('Build', 'Service')}[kindme]:
+            if not wanted[k]:
+                continue
+            if kindme == 'aggregate':
+                if all(word[(d, k)] for d in deps) and not acked[k]:
+                    viol.add('idle_although_ready')
+            elif all(word.values()) and sum(n['spawn'] + n['spawn_failed'] for n in native['steps']) == 0:
+                viol.add('idle_although_ready')
     # the actor returned (its Child was dropped) while the process it had spawned was still running
     if any(n.get('dropped_running') for n in native['steps']):
         viol.add('proc_left_at_exit')
